@@ -287,6 +287,21 @@ fn gen(r: &mut Rng, tier: &Tier, out: &mut Vec<String>) {
             out.push(line(1000, &evs));
         }
     }
+    // ---- stream 1d: a segment 2^31 or more beyond the ISN (the limit of 32-bit serial arithmetic: class `far`) ----
+    for i in 0..tier.scale(40, 400) {
+        let req = gen_request(r); let resp = gen_response(r);
+        let c = Conn { id: conn_id(r, 0), cisn: r.next() as u32, sisn: r.next() as u32, req: partition(r, &req, 2), resp: partition(r, &resp, 2) };
+        let oc: Vec<usize> = (0..c.req.len()).collect(); let os: Vec<usize> = (0..c.resp.len()).collect();
+        let mut evs = conn_events(r, &c, &oc, &os, 1);
+        let client = i % 2 == 0;
+        let isn = if client { c.cisn } else { c.sisn };
+        let far = Ev { conn: c.id, client, flags: "PA".into(), seq: isn.wrapping_add(1).wrapping_add((1u32 << 31) - 2 + r.below(4) as u32), pay: b"zzzz".to_vec() };
+        // after the direction's SYN, anywhere among its data
+        let first = evs.iter().position(|e| e.client == client && e.flags.contains('S')).unwrap();
+        let at = r.range(first as u64 + 1, evs.len() as u64) as usize;
+        evs.insert(at, far);
+        out.push(line(1000, &evs));
+    }
     // ---- stream 2: malformed / outside the specification's domain ----
     let n3 = tier.scale(300, 4000);
     for _ in 0..n3 {
